@@ -16,7 +16,7 @@ namespace
 		for (; it != endIt; ++it)
 		{
 			const char sym = *it;
-			if (sym == '"' || sym == separator || sym == '\n')
+			if (sym == '"' || sym == separator || sym == '\n' || sym == '\r')
 			{
 				break;
 			}
@@ -29,7 +29,7 @@ namespace
 		}
 		else
 		{
-			// RFC: Fields containing line breaks (CRLF), double quotes, and commas should be enclosed in double-quotes
+			// RFC: Fields containing line breaks (CR, LF), double quotes, and commas should be enclosed in double-quotes
 			outputString.push_back('"');
 			outputString.append(value.data(), it);	// NOLINT(bugprone-suspicious-stringview-data-usage)
 
